@@ -361,6 +361,11 @@ def check(pid, tier, seed):
     ok, msg = run_translator()
     if not ok:
         broken.append({"what": "translator", "detail": msg[-3000:]})
+    # functions the function translator could not translate (rewritten outside its subset, or removed): the tie
+    # theorems about them can no longer be stated - a broken tie for the properties that rest on it
+    untranslated = [l for l in msg.split("\n") if l.startswith("gen_fns: UNTRANSLATED")]
+    if untranslated and cfg.get("src_tie"):
+        broken.append({"what": "translator:gen_fns", "detail": "\n".join(untranslated[:40])})
 
     # 1b. specification-side cross-checks and the property's eval script (spec oracle on source-derived data)
     framework_errors += run_framework_checks(cfg)
@@ -384,9 +389,19 @@ def check(pid, tier, seed):
     ok, out = lake_build(targets)
     lean_ok = ok
     if not ok:
-        errs = [l for l in out.split("\n") if l.startswith("error")]
+        # error lines plus what follows them (a `bv_decide` failure prints the counterexample it found on the
+        # following lines: for a tie theorem between generated and reference definition that IS a failing input)
+        lines_ = out.split("\n")
+        errs = []
+        for i, l in enumerate(lines_):
+            if l.startswith("error"):
+                errs.append(l)
+                j = i + 1
+                while j < len(lines_) and j < i + 12 and not lines_[j].startswith(("error", "warning", "✖", "✔", "⚠", "trace:")):
+                    errs.append("    " + lines_[j])
+                    j += 1
         failed_thms = sorted(set(re.findall(r"error: (\S+\.lean:\d+)", out)))
-        broken.append({"what": "lean-build", "theorem_locations": failed_thms, "detail": "\n".join(errs[:40])})
+        broken.append({"what": "lean-build", "theorem_locations": failed_thms, "detail": "\n".join(errs[:120])})
         # the driver may still be buildable (it does not import proofs)
         ok_d, out_d = lake_build(["driver"])
         if not ok_d:
@@ -538,6 +553,16 @@ def check(pid, tier, seed):
         "broken": broken,
         "widened_search": widened,
     }
+    if cfg.get("src_tie"):
+        coverage["source_tie"] = {
+            "translated_functions": len(re.findall(r'"', open(os.path.join(LEAN, "X86Model", "Generated", "SrcFns.lean")).read()
+                                                 .split("def translated : List String := [")[-1].split("]")[0])) // 2,
+            "untranslated": [l[len("gen_fns: UNTRANSLATED "):] for l in untranslated],
+            "tie_theorems": len([t for t in thms if t.startswith("X86.SrcTie.") or t.startswith("X86.RefBridge.")]),
+            "note": "Generated/SrcFns.lean is re-generated from /repo's source on this run; X86.SrcTie.* prove "
+                    "generated = reference definition for all inputs, X86.RefBridge.* reference = Nat model; the "
+                    "driver also evaluates the generated definitions on every protocol line (disagreement prefix `src`)",
+        }
     if ev_res is not None:
         coverage["uncovered"] = ev_res["uncovered"]
         coverage["spec_eval_counts"] = ev_res["counts"]
